@@ -278,8 +278,11 @@ class _InlineTemps(ast.NodeTransformer):
     visit_AsyncFunctionDef = visit_FunctionDef
 
 
-def normalise_tree(tree):
+def normalise_tree(tree, rel=None):
     """syntactic normal forms applied to every module at parse time"""
+    if rel is not None:
+        from .simplify import inline_new_constants
+        tree = inline_new_constants(tree, rel)
     tree = _LowerIfExp().visit(tree)
     tree = _ForUnpackFold().visit(tree)
     tree = _LoopToComp().visit(tree)
@@ -293,7 +296,7 @@ class Module:
     def __init__(self, rel, src):
         self.rel, self.src = rel, src
         self.tree = ast.parse(src, filename=rel)
-        self.tree = normalise_tree(self.tree)
+        self.tree = normalise_tree(self.tree, rel)
         # locals that were merely renamed get their reference names back (sa/localnames.py)
         from .localnames import restore_module
         self.renamed_locals = restore_module(rel, self.tree, src)
